@@ -375,6 +375,7 @@ def run(ctx):
 
 
 SELFTEST = [
+    ('refit-uncorrelated', 'pyerrors/fits.py', '                fit_result = iminuit.minimize(chisqfunc, fit_result.x, tol=tolerance)', '                fit_result = iminuit.minimize(chisqfunc_uncorr, fit_result.x, tol=tolerance)', 'C08-D6'),
     ('odr-iteration-limit-accepted', 'pyerrors/fits.py', "    if out.info > 3:", "    if out.info >= 5:", 'C08-D8'),
     ('benign-odr-gate-ge', 'pyerrors/fits.py', "    if out.info > 3:", "    if out.info >= 4:", 'BENIGN'),
     ('success-gate-removed', 'pyerrors/fits.py', "    if not fit_result.success:\n        raise Exception('The minimization procedure did not converge.')\n", "", 'C08-D8'),
